@@ -263,10 +263,8 @@ def decode_modes(modes):
     if modes == EMPTY_VALUE:
         return []
 
-    for mode in modes:
-        if mode in list(m.value for m in Mode):
-            return Mode(mode)
-        raise RemotingException("Unknown mode '{}' found".format(mode))
+    if modes in list(m.value for m in Mode):
+        return Mode(modes)
 
     raise RemotingException("Unknown mode '{}' found".format(modes))
 
